@@ -1,5 +1,5 @@
 (* Properties/C01.v — require(): one evaluation and one exports identity per module per runtime. *)
-From GN Require Import Common.Base Model.Paths Model.Require Proofs.RequireInv Proofs.RequireExtra.
+From GN Require Import Common.Base Model.Paths Model.Require Proofs.RequireInv Proofs.RequireExtra Proofs.ResolveProofs Gen.RequireGlue Model.ResolveSrc.
 Open Scope Z_scope.
 
 (* For every file tree, every assignment of module programs (trees, DAGs, cycles of any length, self-requires, throws
@@ -46,6 +46,11 @@ Theorem C01_failure_uncached : forall fs rq,
   clean_failure st (fst (load_module fs rq st p)) (snd (load_module fs rq st p)).
 Proof. intros fs rq Hrq st p HI Hn. exact (proj2 (proj2 (load_module_good3 fs rq Hrq st p HI)) Hn). Qed.
 Print Assumptions C01_failure_uncached.
+
+(* the model's resolve/loadModule/loadNative were written against this text of resolve.go (regenerated every run) *)
+Theorem C01_source_tie : Gen.RequireGlue.resolve_src = Model.ResolveSrc.expected_resolve_src.
+Proof. exact resolve_source_unchanged. Qed.
+Print Assumptions C01_source_tie.
 
 (* non-vacuity: a <-> b cycle in which a throws after b required './a' (the history that used to leave a stale alias) *)
 Example C01_nonvacuous :
